@@ -175,7 +175,7 @@ def build(verbose=False, gate=True):
             f.write("built in %.1fs\n%s\n" % (time.time() - t0, "\n".join(warns)))
         # evict old builds (keep the 4 most recent)
         ents = sorted((os.path.getmtime(os.path.join(BUILD, d)), d) for d in os.listdir(BUILD)
-                      if os.path.isdir(os.path.join(BUILD, d)))
+                      if os.path.isdir(os.path.join(BUILD, d)) and not d.startswith("verif-out-"))
         for _, d in ents[:-4]:
             shutil.rmtree(os.path.join(BUILD, d), ignore_errors=True)
         return binp, bdir, {"cached": False, "key": key, "build_s": round(time.time() - t0, 1), "warnings": warns}
